@@ -139,6 +139,7 @@ type World struct {
 	victimTraceIdx      map[string]int             // op id -> length of the step trace when it was last a victim
 	readTables          map[string]map[string]bool // task -> tables of the bucket its read statements referenced (auditRead)
 	refusals            map[string]string          // task -> the feature refusal the storage layer raised for its read
+	foreign             []ForeignRow               // rows of another ledger matched by a statement (sqlmini auditRows)
 	unscoped            []UnscopedRead             // read statements with fewer ledger predicates than bucket-table references (auditRead)
 	misreads            []FeatureMisread           // read statements that need a feature the ledger has disabled (auditRead)
 	lenientReads        bool                       // see unmodelled
